@@ -197,7 +197,7 @@ func c05G2Cases(r *rand.Rand, cv ref.Conv, nFlipEnc int) []bcase {
 	for x, found := int64(0), 0; x < 400 && found < 6; x++ {
 		b := make([]byte, 96)
 		big.NewInt(x).FillBytes(b[:48])
-		big.NewInt(x/3+1).FillBytes(b[48:])
+		big.NewInt(x/3 + 1).FillBytes(b[48:])
 		b[0] |= 0x80
 		if _, cls := ref.DecodeG2(b, cv); cls != ref.DecOK {
 			continue
@@ -342,6 +342,9 @@ func ecRawCases(r *rand.Rand, c *ref.ECCurve) []bcase {
 			cs = append(cs, bcase{flipBit(v, i), "bitflip"})
 		}
 	}
+	// other standard encodings of the same point given to the raw decoder
+	cs = append(cs, bcase{append([]byte{4}, valid...), "sec1-uncompressed"}, bcase{c.EncodeCompressed(pt), "compressed-33"},
+		bcase{append(c.EncodeCompressed(pt), make([]byte, 31)...), "compressed-padded-64"}, bcase{append([]byte{4}, valid[:63]...), "sec1-uncompressed-truncated-64"})
 	// (x, -y) is valid; (x, y+1) is not
 	neg := c.EncodeRaw(c.C.Neg(pt))
 	cs = append(cs, bcase{neg, "valid-neg"})
@@ -389,6 +392,16 @@ func ecCompressedCases(r *rand.Rand, c *ref.ECCurve) []bcase {
 			cs = append(cs, bcase{append([]byte{3}, xp.FillBytes(make([]byte, 32))...), "x-plus-p"})
 			found++
 		}
+	}
+	// other standard encodings of valid points: SEC1 uncompressed 04||X||Y, hybrid 06/07||X||Y,
+	// raw X||Y, and the compressed form padded to other lengths
+	for e := 0; e < 4; e++ {
+		q := c.Pub(new(big.Int).Mod(new(big.Int).SetBytes(mon.RandBytes(r, 40)), c.N))
+		raw := c.EncodeRaw(q)
+		par := byte(q.Y.Bit(0))
+		cs = append(cs, bcase{append([]byte{4}, raw...), "sec1-uncompressed"}, bcase{append([]byte{6 + par}, raw...), "sec1-hybrid"},
+			bcase{append([]byte{7 - par}, raw...), "sec1-hybrid-wrong-parity"}, bcase{raw, "raw-64"}, bcase{append([]byte{0}, raw...), "prefix00-raw"},
+			bcase{append(c.EncodeCompressed(q), raw[32:]...), "compressed-plus-y"})
 	}
 	for e := 0; e < 2; e++ {
 		v := c.EncodeCompressed(c.Pub(new(big.Int).Mod(new(big.Int).SetBytes(mon.RandBytes(r, 40)), c.N)))
